@@ -277,9 +277,13 @@ func workerGoroutines() (total int, parked int) {
 	return
 }
 
-var deadline = 20 * time.Second
+var deadline = 10 * time.Second
 
 type inconclusive struct{ what string }
+
+// histories abandoned because a condition was not reached within the deadline
+var nInconclusive, nCases int
+var aborted bool
 
 func waitCond(what string, cond func() bool) {
 	t0 := time.Now()
@@ -353,7 +357,11 @@ func (e *exec) start(readFault bool) {
 	p.sched = &generator.Scheduler{}
 	p.latch = generator.NewProtocolLatch()
 	p.sched.RegisterProtocol(p.latch)
-	p.pool = generator.NewParameterPool[param](nopLogger{}, p.sched, p, e.k, p.generate, 0)
+	// the constructor loads the stored entries into the channel: run it aside so that a
+	// constructor that blocks makes the history Inconclusive instead of hanging the driver
+	built := make(chan *generator.ParameterPool[param], 1)
+	go func() { built <- generator.NewParameterPool[param](nopLogger{}, p.sched, p, e.k, p.generate, 0) }()
+	p.pool = recvOrInconclusive("NewParameterPool returned", built)
 	e.p = p
 	e.running, e.hung, e.pending = true, false, false
 	e.results = map[uint64]chan getResult{}
@@ -511,6 +519,22 @@ func (e *exec) feasible(o op) bool {
 type policy func(e *exec, step int) *op
 
 func runCase(id string, k int, store0 []uint64, boot string, next policy, em *lib.Emitter) {
+	nCases++
+	if aborted {
+		return
+	}
+	if nInconclusive >= 3 && nInconclusive*20 > nCases {
+		// the implementation cannot be driven: not a verdict on the property, but the
+		// correspondence cannot be checked either.  Stop generating and hand check.py a case
+		// the model rejects as BadCase (a generator that repeats a value), so that the run is
+		// not reported as passing; the cases produced so far are still judged.
+		fmt.Fprintf(os.Stderr, "c39: %d of %d histories inconclusive, giving up\n", nInconclusive, nCases)
+		aborted = true
+		em.Case(lib.Case{ID: "too-many-inconclusive-histories",
+			Coq: "{| c_k := 1%N; c_store0 := [1%N; 1%N]; c_boot := ReadOk; c_obs0 := {| o_res := RNone; o_count := 0%N; o_store := [] |}; c_steps := [] |}",
+			Key: "inconclusive", In: input{}, Out: "the driver could not drive the implementation"})
+		return
+	}
 	e := &exec{k: k, st: &storage{items: append([]uint64{}, store0...)}}
 	in := input{K: k, Store0: append([]uint64{}, store0...), Boot: boot}
 	var steps []string
@@ -521,6 +545,7 @@ func runCase(id string, k int, store0 []uint64, boot string, next policy, em *li
 		defer func() {
 			if r := recover(); r != nil {
 				if inc, is := r.(inconclusive); is {
+					nInconclusive++
 					em.Tally("inconclusive:" + inc.what)
 					fmt.Fprintf(os.Stderr, "c39: case %s inconclusive: %s\n", id, inc.what)
 					ok = false
@@ -796,7 +821,7 @@ func main() {
 	for i := 0; i < L; i++ {
 		total *= 7
 	}
-	nSmall := o.Count(350, 2*total)
+	nSmall := o.Count(220, 2*total)
 	perm := rng.Fork("small").Perm(2 * total)
 	for i := 0; i < nSmall && i < 2*total; i++ {
 		code := perm[i]
@@ -813,7 +838,7 @@ func main() {
 	}
 
 	// --- structured random histories
-	nRand := o.Count(400, 4000)
+	nRand := o.Count(260, 4000)
 	for i := 0; i < nRand; i++ {
 		r := rng.Fork(fmt.Sprintf("rand%d", i))
 		k := r.Range(0, 4)
